@@ -216,7 +216,37 @@ impl Property for C19 {
         gen::raw_net(4)
     }
     fn check_raw(&self, raw: &RawNet) -> Verdict {
-        let aeon = gen::resolve_net_with(raw, &NAMES_C19, 7);
+        let mut aeon = gen::resolve_net_with(raw, &NAMES_C19, 6);
+        // in a share of the cases: an explicit zero-arity parameter whose name looks like a row
+        // constant the converter generates for another function (`f_1`, `g_10`, `<var>_0`, ...)
+        let sel = raw.names.get(3).copied().unwrap_or(0);
+        if sel % 3 == 0 {
+            let vars: Vec<String> = match BooleanNetwork::try_from(aeon.as_str()) {
+                Ok(bn) => bn.variables().map(|v| bn.get_variable_name(v).clone()).collect(),
+                Err(_) => vec![],
+            };
+            let mut candidates: Vec<String> = ["f_1", "f_0", "g_10", "g_11", "k_1", "h_", "f_1_", "g_0"]
+                .iter()
+                .map(|s| s.to_string())
+                .collect();
+            for v in &vars {
+                candidates.push(format!("{v}_0"));
+                candidates.push(format!("{v}_1"));
+                candidates.push(format!("{v}_"));
+            }
+            candidates.retain(|c| !vars.contains(c));
+            let c = candidates[gen::idx(sel, candidates.len())].clone();
+            // append it to the first explicit update function
+            let mut lines: Vec<String> = aeon.lines().map(|l| l.to_string()).collect();
+            if let Some(line) = lines.iter_mut().find(|l| l.starts_with('$')) {
+                let op = if sel % 2 == 0 { "&" } else { "|" };
+                let neg = if sel % 5 < 2 { "!" } else { "" };
+                if let Some((head, body)) = line.clone().split_once(": ") {
+                    *line = format!("{head}: ({body}) {op} {neg}{c}");
+                }
+            }
+            aeon = lines.join("\n");
+        }
         check_aeon(&aeon)
     }
     fn replay(&self, case: &Value) -> Verdict {
